@@ -5,6 +5,9 @@
 (R) targets are generated from components (form x userinfo x host spelling x port x path/query) plus damaged variants;
     each goes (a) through the REAL HttpParser and (b) through the REAL handler + HttpProxyPlugin on SimNet, where the
     outbound connection attempt is observed at the socket-module seam (host string, port, literal-or-name dispatch).
+    Sequences (spec/TraceTargetSeq.tla): 2..4 absolute-form requests on one kept-alive client connection (origins sharing
+    the host / the port / both in another spelling), each answered by a faithful origin before the next is sent: every
+    request must arrive over exactly one upstream connection, the one to the host and port ITS target names.
 (V) TLC parses the target with the reference and decides.
 """
 import itertools
@@ -51,6 +54,72 @@ def targets(rnd, quick):
     return out
 
 
+SEQ_RESP = b'HTTP/1.1 200 OK\r\nContent-Length: 4\r\n\r\nbody'
+
+
+def seq_part(chk, rnd, quick):
+    """Sequences: 2..4 absolute-form requests on ONE kept-alive client connection, each answered before the next is sent; every request
+    must arrive at the origin its own target names (spec/TraceTargetSeq.tla).  Origins that share the host and differ in the port, share
+    the port and differ in the host, are the same origin in two spellings, IPv6 literals."""
+    A = [(b'h.example', b''), (b'h.example', b':8080'), (b'h.example', b':81'), (b'g.example', b''), (b'g.example', b':8080'), (b'h.example.org', b':8080'),
+         (b'10.1.2.3', b':8000'), (b'10.1.2.3', b':8001'), (b'10.1.2.4', b':8000'), (b'[::1]', b':9000'), (b'[::1]', b':9001'), (b'[2001:db8::7]', b':9000'),
+         (b'h.example', b':80'), (b'H.EXAMPLE', b'')]
+    shapes = [(0, 1, 0), (0, 1), (1, 0, 1, 0), (0, 0, 1), (0, 1, 1, 0), (0, 1, 2), (0, 1, 0, 2)]
+    pairs = [(a, b) for a in range(len(A)) for b in range(len(A)) if a != b]
+    if quick:
+        pairs = [pq for pq in pairs if rnd.random() < 0.4]
+    cases, descs = [], {}
+    for a, b in pairs:
+        third = rnd.choice([x for x in range(len(A)) if x not in (a, b)])
+        for shape in ([shapes[0]] + rnd.sample(shapes[1:], 1 if quick else 3)):
+            origin = [A[(a, b, third)[i]] for i in shape]
+            targets = [b'http://' + h + p + rnd.choice([b'/', b'/r%d' % k, b'/x/y?z=%d' % k]) for k, (h, p) in enumerate(origin)]
+            conv = scen.Conversation(args=[])
+            c = conv.client()
+            dests = []
+            for t in targets:
+                method = rnd.choice([b'GET', b'GET', b'POST', b'DELETE'])
+                body = b'seq-body' if method == b'POST' else b''
+                raw = method + b' ' + t + b' HTTP/1.1\r\nHost: ' + rnd.choice([b'ignored.example', t.split(b'/')[2]]) + b'\r\n' + \
+                    (b'Content-Length: %d\r\n' % len(body) if body else b'') + b'\r\n' + body
+                seen = {id(u): len(u.got) for u in conv.sim.upstreams}
+                for piece in scen.pieces(raw, rnd, rnd.choice(['one', 'two', 'crlf'])):
+                    conv.step(('c', piece))
+                grew = [u for u in conv.sim.upstreams if len(u.got) > seen.get(id(u), 0)]
+                dests.append([{'host': list(str(u.addr[0]).encode()), 'port': u.addr[1] if isinstance(u.addr[1], int) else -1} for u in grew])
+                g0 = len(c.got)
+                for u in grew[:1]:
+                    if not u.closed:
+                        u.write(SEQ_RESP)
+                        conv.settle()
+                if c.eof_seen or len(c.got) == g0:
+                    break                       # the conversation cannot go on in lock step (judged up to here)
+            cid = len(cases) + 1
+            cases.append({'id': cid, 'targets': [list(t) for t in targets[:len(dests)]], 'dests': dests})
+            descs[cid] = {'targets': [t.decode() for t in targets], 'requests_sent': len(dests), 'loop_alive': conv.sim.alive}
+    results, rej = tlc.run_sharded('TraceTargetSeq', 'TraceTargetSeq.cfg', cases, shards=16, timeout=1200)
+    m = tlc.Merged(results)
+    chk.add_tlc('TraceTargetSeq (%d kept-alive connections)' % len(cases), m)
+    if m.status == 'failed':
+        raise MachineryError('TraceTargetSeq: ' + m.brief())
+    chk.traces(len(cases))
+    byid = {c['id']: c for c in cases}
+    for cid, clause in rej:
+        if clause.startswith('machinery'):
+            raise MachineryError('sequence case %d: %s' % (cid, clause))
+        d, c = descs[cid], byid[cid]
+        k = int(clause.split('(request ')[1].split(' ')[0])
+        sig = {'clause': clause.split(' (')[0], 'form': 'absolute-sequence', 'request_index': min(k, 3)}
+        chk.violation(sig, 'kept-alive connection %s: %s' % (d['targets'], clause),
+                      {'case': d, 'destinations': [[(bytes(x['host']).decode('latin1'), x['port']) for x in ds] for ds in c['dests']]})
+    chk.cov['sequence_connections'] = len(cases)
+    chk.cov['sequence_requests'] = sum(len(c['dests']) for c in cases)
+    short = sum(1 for c in cases if len(c['dests']) < len(descs[c['id']]['targets']))
+    chk.cov['sequences_cut_short'] = short
+    for c in cases[:1]:
+        chk.sample({'case': descs[c['id']], 'destinations': [[(bytes(x['host']).decode('latin1'), x['port']) for x in ds] for ds in c['dests']]})
+
+
 def run(chk):
     quick = chk.tier == 'quick'
     rnd = random.Random(chk.seed * 43 + 5)
@@ -94,6 +163,7 @@ def run(chk):
                       {'case': d, 'parser': {'exc': c['pexc'], 'host': bytes(c['phost']).decode('latin1'), 'port': c['pport'], 'path': bytes(c['ppath']).decode('latin1')},
                        'connections': [{'host': bytes(x['host']).decode('latin1'), 'port': x['port'], 'via': x['via']} for x in c['conns']],
                        'client_got': bytes(c['cgot']).decode('latin1')[:120]})
+    seq_part(chk, rnd, quick)
     forms = {}
     for d in descs.values():
         k = '%s/%s' % (d['form'], d.get('host_class', '-'))
